@@ -66,6 +66,8 @@ class Check(object):
         """Fail closed (analysis error) if a rule matched fewer instances than confirmed by hand."""
         from .model import AnalysisError
         n = len([o for o in self.obligations if o["rule"] == rule])
+        if any(o["rule"] == rule and not o["ok"] for o in self.obligations):
+            return    # the rule already reports a construct: that report stands
         if n < minimum:
             raise AnalysisError("rule %s matched %d instance(s), floor is %d: the rule would pass vacuously"
                                 % (rule, n, minimum))
